@@ -17,6 +17,8 @@ package p30
 import (
 	"encoding/hex"
 	"fmt"
+	"runtime"
+	"sync"
 	"sync/atomic"
 	"testing"
 
@@ -690,6 +692,89 @@ func TestC30(t *testing.T) {
 		}
 	})
 
+	// proofs that are HELD while other proofs are generated (a node answers several merkle-block
+	// requests, on one goroutine or on several): a proof handed out is a value, it must keep
+	// validating against its own root and keep the hashes it had when it was returned
+	r.Cases("held-proofs", r.N(200, 8000), func(c *ev.Case) {
+		rng := c.Rand
+		mk := func(l []h32) []*types.Tx {
+			out := make([]*types.Tx, len(l))
+			for i := range l {
+				out[i] = &types.Tx{Tx: &bc.Tx{ID: bc.NewHash(l[i])}}
+			}
+			return out
+		}
+		type held struct {
+			ids, rel []h32
+			root     h32
+			hs       []*bc.Hash // exactly what GetTxMerkleTreeProof returned
+			fl       []uint8
+			snap     []h32
+		}
+		gen := func(r *ev.Rand) *held {
+			n := r.Range(1, 40)
+			ids := distinctIDs(r, n)
+			sel, _ := randomSubset(r, n)
+			h := &held{ids: ids, rel: pick(ids, sel)}
+			h.root = refRoot(ids)
+			h.hs, h.fl = types.GetTxMerkleTreeProof(mk(ids), mk(h.rel))
+			for _, x := range h.hs {
+				h.snap = append(h.snap, x.Byte32())
+			}
+			return h
+		}
+		check := func(h *held, when string) {
+			c.Eval(1)
+			for i, x := range h.hs {
+				if x.Byte32() != h.snap[i] {
+					c.Violation("held-proof:hash-changed:"+when, "a hash of a proof returned earlier changed while another proof was generated",
+						map[string]interface{}{"n": len(h.ids), "related": len(h.rel), "index": i, "was": fmt.Sprintf("%x", h.snap[i]), "now": fmt.Sprintf("%x", x.Byte32())})
+					return
+				}
+			}
+			if len(h.rel) > 0 && !validate(h.hs, h.fl, toHashes(h.rel), bc.NewHash(h.root)) {
+				c.Violation("held-proof:no-longer-validates:"+when, "a proof returned earlier no longer validates against its own root after another proof was generated",
+					map[string]interface{}{"n": len(h.ids), "related": len(h.rel)})
+				return
+			}
+			c.Count("held_proofs_still_valid:"+when, 1)
+		}
+		// sequential: hold 2-4 proofs, generate more, re-check all
+		var hs []*held
+		for i, k := 0, rng.Range(2, 4); i < k; i++ {
+			hs = append(hs, gen(rng))
+		}
+		for i, k := 0, rng.Range(1, 3); i < k; i++ {
+			gen(rng)
+		}
+		for _, h := range hs {
+			check(h, "sequential")
+		}
+		// concurrent: four goroutines generate and re-check their own proofs
+		var wg sync.WaitGroup
+		var mu sync.Mutex
+		var all []*held
+		for g := 0; g < 4; g++ {
+			gr := rng.Fork()
+			wg.Add(1)
+			go func() {
+				defer wg.Done()
+				var mine []*held
+				for i := 0; i < 6; i++ {
+					mine = append(mine, gen(gr))
+					runtime.Gosched()
+				}
+				mu.Lock()
+				all = append(all, mine...)
+				mu.Unlock()
+			}()
+		}
+		wg.Wait()
+		for _, h := range all {
+			check(h, "concurrent")
+		}
+	})
+
 	// hand-made proofs over the real tree: accepted => every related id is in the list
 	r.Cases("crafted", r.N(3000, 150000), func(c *ev.Case) {
 		rng := c.Rand
@@ -891,6 +976,8 @@ func TestC30(t *testing.T) {
 		{"crafted:related-foreign:reject", 100, 2500},
 		{"crafted:leaf-as-foreign:reject", 100, 2500},
 		{"crafted:expanded:accept", 100, 2500},
+		{"held_proofs_still_valid:sequential", 300, 12000},
+		{"held_proofs_still_valid:concurrent", 3000, 120000},
 	} {
 		if r.Thorough() {
 			r.Floor(f.n, f.th)
